@@ -241,7 +241,7 @@ class Signal(np.lib.mixins.NDArrayOperatorsMixin):
     def sample_rate(self, sample_rate):
         try:
             temp = sample_rate.to(u.Hz)
-            assert temp.isscalar and temp > 0
+            assert temp.isscalar and np.isreal(temp.value) and temp > 0
         except Exception:
             raise ValueError(
                 "Invalid sample_rate. Must be a positive scalar "
@@ -540,7 +540,7 @@ class RadioSignal(Signal):
     def chan_bw(self, chan_bw):
         try:
             temp = chan_bw.to(u.Hz)
-            assert temp.isscalar and temp > 0
+            assert temp.isscalar and np.isreal(temp.value) and temp > 0
         except Exception:
             raise ValueError(
                 "Invalid chan_bw. Must be a positive scalar "
